@@ -109,6 +109,43 @@ def skeleton_scripts(kmax, maxlen, kind, skip_dead=False, sample=None, rng=None,
     return scripts
 
 
+def clean_exit_scripts(rng, n):
+    """random skeletons WITH `exit repeat` that lie OUTSIDE every known failure class (F23-F25, F126, F138): only these can show a
+    regression of the exit-repeat reconstruction — inside a class the program fails anyway and a new failure would be attributed
+    to the open finding. Exits are placed where the heuristic handles them (last item of an `if` without else, second-to-last
+    statement of a branch); the surrounding shape (siblings before / after, nesting in either branch, loop kind) is random.
+    One handler per script. (Seeded change C03-m7 showed only on such programs.)"""
+    out, tries = [], 0
+    def body(depth, in_loop, lo=1):
+        k = rng.choice([1, 1, 2, 2, 3]) if lo else rng.choice([0, 1, 2])
+        return tuple(item(depth, in_loop) for _ in range(k))
+    def item(depth, in_loop):
+        c = rng.random()
+        if depth <= 0 or c < 0.3:
+            return "s"
+        if c < 0.55:
+            b = body(depth - 1, in_loop)
+            if in_loop and rng.random() < 0.45:
+                b = b[:rng.randrange(len(b) + 1)] + ("x",)            # exit as the last item of an if without else
+            return ("if", b)
+        if c < 0.75:
+            t, e = body(depth - 1, in_loop), body(depth - 1, in_loop)
+            if in_loop and rng.random() < 0.3:
+                t = t[:-1] + ("x", "s") if rng.random() < 0.5 else t    # second-to-last of a then branch
+            return ("ifelse", t, e)
+        return (rng.choice(L.LOOPS), body(depth - 1, True))
+    while len(out) < n and tries < 40 * n:
+        tries += 1
+        sk = tuple([item(rng.choice([2, 3, 4]), False) for _ in range(rng.choice([1, 2, 3]))])
+        if not L.skel_has_exit(sk) or has_dead_code(sk):
+            continue
+        h = L.skel_handler(sk, "h0")
+        if L.c03_classes(h[3:]):
+            continue
+        out.append(dict(script_of([h], kind="clean-exit"), skel=[L.skel_str(sk)]))
+    return out
+
+
 def has_dead_code(items):
     for i, it in enumerate(items):
         if it == "x" and i < len(items) - 1:
@@ -372,6 +409,7 @@ def cases(rng, tier):
         scripts += [s for s in skeleton_scripts(3, 2, "skel-k3-len2-sample", skip_dead=True, sample=1500, rng=rng) if s["kind"].endswith("exit")]
         scripts += random_scripts(rng, 500) + long_body_scripts(rng, 30)
         scripts += protocol_scripts(rng, tier) + empty_body_scripts(rng, 300)
+        scripts += clean_exit_scripts(rng, 600)
     else:
         scripts += skeleton_scripts(5, 1, "skel-k5-len1")
         scripts += skeleton_scripts(4, 1, "skel-k4-len01", empties=True)
@@ -379,6 +417,7 @@ def cases(rng, tier):
         scripts += skeleton_scripts(2, 2, "skel-k2-len02", empties=True)
         scripts += random_scripts(rng, 20000 if tier == "thorough" else 8000) + long_body_scripts(rng, 300)
         scripts += protocol_scripts(rng, tier) + empty_body_scripts(rng, 6000)
+        scripts += clean_exit_scripts(rng, 20000 if tier == "thorough" else 8000)
     # corpus replays are single-script cases (core prepends them)
     cs, rejected = build_cases(scripts)
     cases.rejected = rejected
